@@ -82,14 +82,33 @@ def mk_simple(g, nx=False):
     return G
 
 
-def mk_dag(g):
+def mk_dag(g, nx=False):
+    if nx:
+        import networkx
+        D = networkx.DiGraph()
+        D.add_nodes_from(range(1, g["n"] + 1))
+        D.add_edges_from(tuple(e) for e in g["edges"])
+        D.name = "a networkx dag"
+        return D
     D = DirectedGraph(g["n"])
     for u, v in g["edges"]:
         D.add_edge(u, v)
     return D
 
 
-def mk_bip(g):
+def mk_bip(g, nx=None):
+    if nx:
+        # sides as integers (networkx generators) or strings (graph files)
+        import networkx
+        side = {"int": (0, 1), "str": ("0", "1")}[nx]
+        B = networkx.Graph()
+        for u in range(1, g["L"] + 1):
+            B.add_node(u, bipartite=side[0])
+        for v in range(1, g["R"] + 1):
+            B.add_node(g["L"] + v, bipartite=side[1], weight=[v])
+        B.add_edges_from((u, g["L"] + v) for u, v in g["edges"])
+        B.name = "a networkx bipartite graph"
+        return B
     B = BipartiteGraph(g["L"], g["R"])
     for u, v in g["edges"]:
         B.add_edge(u, v)
